@@ -198,6 +198,7 @@ class DecSide:
         self.mir = None; self.mdict = None
         self.dict_addr = 0
         self.nblocks = 0
+        self.no_mirror = False
     def reset(self, dict_=b"", dict_addr=0):
         """new stream session; the decoder is given the dictionary (its last 64 KB), which lies at dict_addr in the arena"""
         if dict_ and len(dict_) > K64:
@@ -207,6 +208,7 @@ class DecSide:
         self.dict_addr = dict_addr if dict_ else 0
         self.drop()
         self.nblocks = 0
+        self.no_mirror = False
     def drop(self):
         for b in (self.ring, self.sd, self.dictb, self.mdict):
             if b: b.free()
@@ -277,7 +279,7 @@ class DecSide:
                 self.fail("LZ4_decompress_safe_continue (ring buffer of LZ4_decoderRingBufferSize(%d)) returned %d / wrong bytes, expected %d" % (self.ringM, r, n), det)
             self.rpos += n
         # real streaming decoder, synchronised mirror of the encoder arena (same positions, same update rule)
-        if s.use_mirror and addr:
+        if s.use_mirror and addr and not self.no_mirror:
             if self.mir is None:
                 mb = Buf(s.arena.size, fill=0x3C)
                 sd = Buf(32, fill=0)
@@ -299,6 +301,16 @@ class DecSide:
                 self.fail("LZ4_decompress_safe_continue (synchronised mirror of the encoder buffers) returned %d / wrong bytes, expected %d" % (r, n), det)
         self.H = (self.H + src)[-(K64 + 64):]
         self.nblocks += 1
+    def drop_mirror(self):
+        """LZ4_saveDict(HC) while a dictionary context stays attached: the synchronised decoder cannot follow (LZ4_setStreamDecode
+        takes ONE dictionary segment, the encoder now has dictionary ++ saved bytes): not used for the rest of the session;
+        the specification decoder, the stateless decoders and the ring-buffer decoder go on"""
+        if self.mir:
+            self.mir[0].free(); self.mir[1].free(); self.mir = None
+        if self.mdict:
+            self.mdict.free(); self.mdict = None
+        self.no_mirror = True
+        self.s.res["stats"]["mirror_decoder_dropped"] += 1
     def mirror_save(self, addr, n):
         """the decoder's counterpart of LZ4_saveDict: move its last n bytes to the same place, setStreamDecode"""
         if self.mir is None:
@@ -506,7 +518,10 @@ class Sess:
         if self.orc:
             self.ask("save", sid, addr, n)
             self.cmp_model(sid, "LZ4_saveDict", r, None, extra={"mem": md5(self.arena.read(addr, r))})
-        d.mirror_save(addr, r)
+        if self.fstate(sid)["dctx"] != -1:
+            d.drop_mirror()        # (only before the first non-empty block: the dictionary context is still attached)
+        else:
+            d.mirror_save(addr, r)
         return r
     def f_oneshot(self, sid, kind, addr, n, cap, acc):
         """kind: fr (LZ4_compress_fast_extState_fastReset) | ext (LZ4_compress_fast_extState) | dsz (LZ4_compress_destSize_extState)"""
@@ -869,7 +884,10 @@ class Sess:
         elif self.orc and r > 0:
             # keep the model's memory in step even when the context is not compared
             a = self.orc.ask("w", str(addr), hx(self.arena.read(addr, r)))
-        d.mirror_save(addr, r)
+        if self.hstate(sid)["dctx"]:
+            d.drop_mirror()        # whole prefix saved, dictionary context still attached: LZ4_setStreamDecode cannot express "dictionary ++ saved bytes"
+        else:
+            d.mirror_save(addr, r)
         return r
     def h_oneshot(self, sid, kind, addr, n, cap, level):
         """kind: fr (LZ4_compress_HC_extStateHC_fastReset) | ext (LZ4_compress_HC_extStateHC)"""
@@ -1085,6 +1103,11 @@ def scen_stream(S, rng, fam, kind, M, nblocks, p):
         da = S.arena.alloc(dn)
         S.write(da, make_block(rng, dn, b"", base))
         if fam == "f": S.f_load(sid, da, dn, slow=rng.random() < 0.4)
+        elif rng.random() < p.get("pattach", 0.4):
+            # the dictionary as an attached dictionary stream (searched in place / copied / detached at 64 KB); with the
+            # save geometries this gives "LZ4_saveDictHC while a dictionary context is attached" (F18)
+            S.h_new(1, rng.choice(levels)); S.h_load(1, da, dn); S.h_attach(sid, 1)
+            st["stream_dict_attached"] += 1
         else: S.h_load(sid, da, dn)
     acc = rng.choice(ACCELS)
     def early_save():
@@ -1217,6 +1240,7 @@ def scen_dict(S, rng, fam, p):
         S.h_new(WS, rng.choice(levels))
     dec = S.dec[(fam, WS)]
     nuses = rng.choice([1, 2, 3, 6])
+    sv = None
     for use in range(nuses):
         st["dict_uses"] += 1
         # prepare the working stream for a new session that starts from the dictionary
@@ -1255,7 +1279,15 @@ def scen_dict(S, rng, fam, p):
             pos = a + n
             for j in range(rng.choice([0, 0, 1, 2, 3])):
                 n2 = min(room - 16, rng.choice([0, 7, 60, 500, 4097, 9000]))
-                if rng.random() < 0.6 and pos + n2 <= a + room:
+                if rng.random() < p.get("psave", 0.3) and (sv is not None or S.arena.size - S.arena.top >= K64 + 9016 + 80):
+                    # LZ4_saveDict / LZ4_saveDictHC (often fewer bytes than the stream holds) while the dictionary may still be
+                    # attached, and the next block right after the saved bytes (F18)
+                    if sv is None: sv = S.arena.alloc(K64 + 9016)
+                    k = rng.choice([K64, K64, 1000, 200, 17, 4, 0])
+                    rs = (S.f_save if fam == "f" else S.h_save)(WS, sv, k)
+                    st["dict_save_then_contiguous"] += 1
+                    a2 = sv + max(rs, 0)
+                elif rng.random() < 0.6 and pos + n2 <= a + room:
                     a2 = pos
                 else:
                     a2 = sep + room + 32
@@ -1813,3 +1845,35 @@ def corpus_savedict_fresh(S, rng):
         S.h_save(i, safe, K64)
         S.h_continue(i, a, len(src), bound(len(src)))
     S.res["stats"]["corpus_F17"] += 1
+
+
+def corpus_savedict_attached(S, rng):
+    """F18 (fixed in /repo): LZ4_saveDictHC of FEWER bytes than the prefix holds while a dictionary context is attached, then
+    a block right after the saved bytes.  Before the fix the dictionary stayed attached and was virtually re-placed just
+    below the saved bytes: offsets into it were short by (prefix size - saved size), silent corruption at every level pair.
+    Judged by the round-trip oracles with the decoder-side history D ++ b1 (all level pairs); pairs of levels 1-2 also by
+    the model.  Second half: the whole prefix saved - the dictionary stays attached and is still used."""
+    r0 = random.Random(18)
+    D = bytes(r0.randrange(256) for _ in range(3000))
+    b1 = bytes(r0.randrange(256) for _ in range(1000))
+    b2 = D[500:1500]
+    da = S.arena.alloc(len(D)); S.write(da, D)
+    a1 = S.arena.alloc(len(b1)); S.write(a1, b1)
+    safe = S.arena.alloc(2 * len(b1) + 64)
+    lv = (1, 2, 3, 9, 12)
+    for i, dl in enumerate(lv):
+        S.h_new(10 + i, dl); S.h_load(10 + i, da, len(D))
+    for j, wl in enumerate(lv):
+        S.h_new(j, wl)
+    for i, dl in enumerate(lv):
+        for j, wl in enumerate(lv):
+            for keep in (200, K64):
+                S.h_reset_fast(j, wl)
+                S.h_attach(j, 10 + i)
+                S.h_continue(j, a1, len(b1), 2000)
+                rs = S.h_save(j, safe, keep)
+                S.write(safe + rs, b2)
+                r, out = S.h_continue(j, safe + rs, len(b2), 2000)
+                if keep == K64 and r > 200 and wl <= 2 and dl <= 2:
+                    S.fail("prop_fail", "dictionary not used after LZ4_saveDictHC of the whole prefix (levels %d/%d): %d bytes" % (dl, wl, r))
+    S.res["stats"]["corpus_F18"] += 1
